@@ -231,10 +231,20 @@ where
         }
 
         let error = 'event_loop: loop {
+            #[cfg(feature = "verif_hooks")]
+            super::verif::checkpoint(super::verif::Point::ALoop);
             // Check if there is work to be done.
             let message =
                 poll_fn(|cx| Self::poll_inboxes(cx, &mut command_inbox, &mut incoming_join_set))
                     .await;
+            #[cfg(feature = "verif_hooks")]
+            super::verif::checkpoint(super::verif::Point::AMsg(match &message {
+                AcceptorInboxMessage::ServerCommand(_) => super::verif::MsgKind::Shutdown,
+                AcceptorInboxMessage::Connection(Some(Ok((_, _, peer)))) => {
+                    super::verif::MsgKind::Conn(*peer)
+                }
+                AcceptorInboxMessage::Connection(_) => super::verif::MsgKind::Other,
+            }));
             match message {
                 AcceptorInboxMessage::ServerCommand(command) => match command {
                     ServerCommand::Shutdown {
@@ -306,6 +316,11 @@ where
                                 // We've successfully sent the connection to a worker, so we can stop trying
                                 // to send it to other workers.
                                 has_been_handled = true;
+                                #[cfg(feature = "verif_hooks")]
+                                super::verif::checkpoint(super::verif::Point::ADispatched(
+                                    remote_peer,
+                                    worker_handle.id(),
+                                ));
                                 break;
                             }
                         }
@@ -325,6 +340,10 @@ where
                         }
                     }
 
+                    #[cfg(feature = "verif_hooks")]
+                    if !has_been_handled {
+                        super::verif::checkpoint(super::verif::Point::ADropped(remote_peer));
+                    }
                     if !has_been_handled {
                         tracing::error!(
                             remote_peer = %remote_peer,
@@ -392,6 +411,9 @@ where
                 shutdown_join_set.spawn_local(future);
             }
         }
+
+        #[cfg(feature = "verif_hooks")]
+        super::verif::checkpoint(super::verif::Point::AShutdownSent);
 
         if let ShutdownMode::Graceful { timeout } = mode {
             // Wait for all workers to shut down, or for the timeout to expire,
